@@ -394,3 +394,9 @@ Example C20_ex_from_pts :
                             (map (aff_apply (mkAff 2 (1#2) 10 0 (-(3)) 5)) [(0, 0); (1, 0); (0, 1); (2#1, 3#1)]) = Ok B /\
             aff_eq B (mkAff 2 (1#2) 10 0 (-(3)) 5).
 Proof. eexists. split; [vm_compute; reflexivity|]. repeat split; reflexivity. Qed.
+
+(** Tie to the source: the definitions regenerated by tools/py2v from the current odc/geo/math.py (coq/Gen/MathGen.v, rewritten on every run) are the model (Model/MathH.v) the theorems above are stated on, up to the error kind. *)
+From OG Require Proofs.MathGenEquivH.
+Theorem C20_source_is_model : OG.Proofs.MathGenEquivH.math_source_is_model.
+Proof. exact OG.Proofs.MathGenEquivH.math_source_is_model_holds. Qed.
+Print Assumptions C20_source_is_model.
